@@ -13,6 +13,7 @@ from ..prng import sub
 from . import c01
 
 ID = "C12"
+PROBES = ['literals_checked', 'readbacks']  # reach probes: counters that must be non-zero in a run (a zero is printed and recorded)
 LEVEL = "exploration"
 BUDGET = {"quick": 1500, "thorough": 40000}
 WALL = {"quick": 300, "thorough": 3400}
